@@ -3,16 +3,15 @@ C17 — maps behave like a dictionary; notifiers fire once.  Hashtable part (lib
 is in the repository, i.e. with the repairs D14 and D15; model: Model/Hashtable.lean with
 `fix14 = fix15 = true`; specification: `Dict` of Model/MapSpec.lean).
 
-FULL STATEMENT (NOT PROVED YET — kept here at full strength; the differential stream of
-checks/C17.py compares exactly these observables on sampled histories):
+MAIN THEOREM `ht_refines_dict` (proved): for all sequences of put/get/rm/count/foreach (complete or
+abandoned)/notifier add/del/destroy the canonical results and the notification trace of the
+hashtable model equal those of `Dict`.  Proof: invariant `Inv` (Lemmas/HtInv.lean: ids distinct,
+node in bucket `hash key`, live keys distinct, `refcount = [not removed] + #iterators parked`,
+iterators' nodes linked) preserved by every operation (`step_inv`), abstraction `Sim`
+(Lemmas/HtSim.lean: `Dict.entries` is a permutation of the linked not-removed nodes), one lemma
+per operation (`sim_put`, `sim_rm`, `sim_foreach`, `sim_nadd`, `sim_ndel`, `sim_destroy`, …).
 
-  theorem ht_refines_dict (size : Nat) (ops : List Op) (h : ∀ op ∈ ops, op.isIter = false) :
-      results .ht (run size ops) = results .ht (Dict.run .ht ops) ∧
-      trace .ht (run size ops) = trace .ht (Dict.run .ht ops)
-
-What is proved below are the clauses of that refinement which hold in EVERY well-formed table
-state (`WF`: ids distinct, every node in bucket `hash key`, every linked node referenced, the
-traversal's private iterator slot free) — whatever iterators are open and whatever
+Also proved, for EVERY well-formed table state (`WF`) — whatever iterators are open and whatever
 removed-but-referenced nodes are still linked:
 * `ht_foreach_partial` / `ht_complete_iteration_exactly_once` / `ht_abandoned_iteration_leaves_map`:
   a traversal (complete, or abandoned at the `stop`-th callback) hands out exactly the linked,
@@ -23,15 +22,31 @@ removed-but-referenced nodes are still linked:
 * the specification side: the dictionary's ordered insert is a permutation of "new entry + the
   others" and keeps the list strictly sorted (`dict_insert_perm`, `dict_insert_sorted`,
   `dict_step_sorted`, `dict_run_sorted`).
-Missing for the full statement: preservation of `WF` + the reference-count equation by every
-operation, and the simulation of put/rm/notify/destroy against `Dict` (abstraction: the linked
-not-removed nodes as a permutation of `Dict.entries`).
 -/
-import QbVerif.Lemmas.HtForeachLoop
+import QbVerif.Lemmas.HtSimRun
 
 namespace QbVerif.Hashtable
 open QbVerif.Map QbVerif.Gen
 set_option linter.unusedSimpArgs false
+
+/-- C17 for the hashtable: for ALL sequences of put/get/rm/count/foreach (complete or abandoned)/
+    notifier add/del/destroy, the results of the hashtable model equal those of the sorted
+    dictionary (`results`: error codes dropped; of a complete traversal the values visited per key,
+    of an abandoned one the number of visited entries — the bucket order is not promised), and so
+    does the notification trace (`trace`: per operation and key, the callbacks in order). -/
+theorem ht_refines_dict (size : Nat) (ops : List Op) (h : ∀ op ∈ ops, op.isIter = false) :
+    results .ht (run size ops) = results .ht (Dict.run .ht ops) ∧
+    trace .ht (run size ops) = trace .ht (Dict.run .ht ops) :=
+  sim_run_c17 ops (create_inv size) (sim_create size) rfl h
+
+/-- non-vacuity / reading aid: the abstraction behind `ht_refines_dict` — after ANY history
+    (iterator operations included) the dictionary's entries are, up to order, the linked
+    not-removed nodes, `count` is their number, and the invariant holds -/
+theorem ht_abstraction (size : Nat) (ops : List Op) :
+    (Dict.run .ht ops).1.entries.Perm ((live (run size ops).1).map absNode) ∧
+    (run size ops).1.count = (Dict.run .ht ops).1.entries.length ∧ Inv (run size ops).1 := by
+  obtain ⟨h, s⟩ := sim_run ops (create_inv size) (sim_create size)
+  exact ⟨s.entries, (s.count h).symm, h⟩
 
 /-- the freshly created table is well formed -/
 theorem wf_create (n : Nat) : WF (create true true n) := by
